@@ -1586,6 +1586,15 @@ class StructV(AVal):
         return f'<struct.Struct {self.fmt!r}>'
 
 
+def e_struct_unpack_from(it, args, kwargs, node):
+    # struct.unpack_from(format, buffer, offset=0): the method of the compiled format
+    fmt = it.resolve(args[0]) if args else None
+    if not (isinstance(fmt, SeqV) and fmt.is_lit()) or len(args) < 2:
+        it.note_unknown(node, 'struct.unpack_from with non-constant format')
+        return UnkV('unpack_from')
+    return it.call_method(StructV(fmt), 'unpack_from', list(args[1:]), dict(kwargs), node)
+
+
 def e_struct_struct(it, args, kwargs, node):
     fmt = it.resolve(args[0]) if args else None
     if not (isinstance(fmt, SeqV) and fmt.is_lit()):
@@ -1597,7 +1606,7 @@ def e_struct_struct(it, args, kwargs, node):
 EXT = {
     'collections.namedtuple': e_namedtuple, 'struct.Struct': e_struct_struct, 'argparse.ArgumentParser': e_argparser,
     'logging.getLogger': e_getlogger,
-    'struct.unpack': e_struct_unpack, 'struct.pack': e_struct_pack, 'struct.calcsize': e_struct_calcsize,
+    'struct.unpack': e_struct_unpack, 'struct.unpack_from': e_struct_unpack_from, 'struct.pack': e_struct_pack, 'struct.calcsize': e_struct_calcsize,
     'binascii.hexlify': e_hexlify, 'binascii.b2a_hex': e_hexlify,
     'binascii.unhexlify': e_unhexlify, 'binascii.a2b_hex': e_unhexlify,
     'str.maketrans': e_maketrans, 'bytes.maketrans': e_maketrans, 'dict.fromkeys': e_dict_fromkeys, 'functools.partial': e_partial, 'operator.methodcaller': e_methodcaller, 'operator.itemgetter': e_itemgetter,
